@@ -13,7 +13,9 @@ reg("C13", "simulations reproducible from their seed, conditioning honoured",
          "with a bivariate model; seed semantics) so that these input classes are visited by every run. Seeds: 1, small, library "
          "defaults, large, 20000158/20000160 (around the modulus of the congruential generator), > 2^31/105 (the product "
          "wraps), 2^31-1, and <= 0 ('do not reseed': the documented global seed is then set before the call). One case in four "
-         "(case index = 2 mod 4) runs all its executions with the new-style generator (law_set_old_style(false)). Each "
+         "(case index = 2 mod 4) runs all its executions with the new-style generator (law_set_old_style(false)); one non-conditional monovariate "
+         "turning-bands case in three uses a POWER structure; before the 'after unrelated use' run of a turning-bands case two sibling models "
+         "(other third parameters; same parameters at another scale) are simulated. Each "
          "configuration is executed 5 times on freshly built inputs: reference, back-to-back, after unrelated use of the "
          "generator, in a pristine process forked before the worker touched the library, and with another seed; outputs "
          "are compared bit for bit ('differs' is only asserted on continuous outputs: not on facies maps, and for Gibbs on "
